@@ -535,22 +535,32 @@ Section WF.
      of configurations was built from that slot's own fields (objects built from another schema -- which the code accepts
      unchecked -- are outside what C01 can promise), and the operations applied to it on the side hand over no
      further objects of unknown origin *)
+  Definition slot_matches (fs : list (str * node F)) (ps : list pstep) (r : objroute) (k : str) (sfs : list (str * node F)) : Prop :=
+    match fields_at ps fs with
+    | Some fs1 => match slot_fields fs1 r k with Some fs' => sfs = fs' | None => True end
+    | None => True
+    end.
   Definition xobj_ok (fs : list (str * node F)) (ps : list pstep) (x : xop F) : Prop :=
     match x with
     | XOp o => obj_ok fs ps o
-    | XObj r k sdyn svs sfs dops =>
-        objs_ok sfs dops /\
-        match fields_at ps fs with
-        | Some fs1 => match slot_fields fs1 r k with Some fs' => sfs = fs' | None => True end
-        | None => True
-        end
+    | XObj r k sdyn svs sfs dops => objs_ok sfs dops /\ slot_matches fs ps r k sfs
+    | XAgain _ _ _ => True         (* stateless reading: nothing is offered *)
     end.
 
-  Theorem resolve_obj_ok : forall fs ps x w, ok_fields fs -> xobj_ok fs ps x -> obj_ok fs ps (snd (resolve w x)).
+  (* an object well-formed for the schema it was built from meets obj_ok wherever that schema is the slot's *)
+  Lemma offered_obj_ok : forall fs ps r k sfs src, ok_fields fs -> slot_matches fs ps r k sfs -> wf_cfg sfs src ->
+    obj_ok fs ps (obj_cop r k src).
   Proof.
-    intros fs ps x w Hok Hx. destruct x as [o|r k sdyn svs sfs dops]; cbn [Config.resolve xobj_ok] in *.
-    - exact Hx.
-    - destruct Hx as [Hd Hs]. destruct (detached w sdyn svs sfs dops) as [w1 src] eqn:Ed. cbn [snd].
+    intros fs ps r k sfs src Hok Hs Hwf. unfold obj_ok, slot_matches in *. destruct (fields_at ps fs) as [fs1|] eqn:Ea; [|exact I].
+    unfold slot_fields in Hs.
+    destruct r; cbn [obj_cop obj_ok_at]; destruct (fget F k fs1) as [[f|d' vs' f'|r' vs' f']|]; try exact I; subst sfs; exact Hwf.
+  Qed.
+  Theorem resolve_obj_ok : forall fs ps x w o, ok_fields fs -> xobj_ok fs ps x -> snd (resolve w x) = Some o -> obj_ok fs ps o.
+  Proof.
+    intros fs ps x w o Hok Hx Hr. destruct x as [o0|r k sdyn svs sfs dops|r k dops]; cbn [Config.resolve xobj_ok] in *.
+    - inversion Hr; subst. exact Hx.
+    - destruct Hx as [Hd Hs]. destruct (detached w sdyn svs sfs dops) as [w1 src] eqn:Ed. cbn [snd] in Hr. inversion Hr; subst. clear Hr.
+      unfold slot_matches in Hs.
       unfold obj_ok. destruct (fields_at ps fs) as [fs1|] eqn:Ea; [|exact I].
       pose proof (fields_at_ok ps fs fs1 Hok Ea) as Hok1.
       assert (Hwf : forall fs', slot_fields fs1 r k = Some fs' -> wf_cfg fs' src).
@@ -562,14 +572,16 @@ Section WF.
         pose proof (detached_wf w sdyn svs fs' dops Hok' Hd) as Hdw. rewrite Ed in Hdw. exact Hdw. }
       unfold slot_fields in Hwf.
       destruct r; cbn [obj_cop obj_ok_at]; destruct (fget F k fs1) as [[f|d' vs' f'|r' vs' f']|]; try exact I; apply Hwf; reflexivity.
+    - discriminate.
   Qed.
 
   Theorem step_x_wf : forall ps x w pre c dyn vs fs w' c' oc1,
     ok_fields fs -> wf_cfg fs c -> xobj_ok fs ps x -> at_path_x ps w pre c dyn vs fs x = (w', c', oc1) -> wf_cfg fs c'.
   Proof.
     intros ps x w pre c dyn vs fs w' c' oc1 Hok Hw Hx H. unfold Config.at_path_x in H.
-    pose proof (resolve_obj_ok fs ps x w Hok Hx) as Ho. destruct (resolve w x) as [w1 o]. cbn [snd] in Ho.
-    eapply step_wf; eauto.
+    pose proof (resolve_obj_ok fs ps x w) as Ho. destruct (resolve w x) as [w1 [o|]]; cbn [snd] in Ho.
+    - eapply step_wf; [exact Hok | exact Hw | apply Ho; auto | exact H].
+    - inversion H; subst. exact Hw.
   Qed.
 
   Fixpoint run_x (ops : list (list pstep * xop F)) (w : world) (c : cfg) (dyn : bool) (vs : list N) (fs : list (str * node F)) : cfg :=
@@ -589,6 +601,59 @@ Section WF.
   Theorem reachable_x_wf : forall ops w dyn vs fs, ok_fields fs -> xobjs_ok fs ops ->
     wf_cfg fs (run_x ops (fst (build_cfg w fs)) (snd (build_cfg w fs)) dyn vs fs).
   Proof. intros. apply run_x_wf; [assumption | apply build_cfg_wf; assumption | assumption]. Qed.
+
+  (* ---- histories in which the caller keeps an object that was refused, goes on working on it and offers it again
+     (Config.at_path_xs).  The static condition follows the schema of the object the caller may still hold. ---- *)
+  Notation at_path_xs := (at_path_xs F lvalidate lto_python ldefault lcallable lflag vrun).
+  Fixpoint run_xs (ops : list (list pstep * xop F)) (w : world) (last : kept F) (c : cfg) (dyn : bool) (vs : list N)
+           (fs : list (str * node F)) : cfg :=
+    match ops with
+    | [] => c
+    | (ps, x) :: r => let '(w1, last1, c1, _) := at_path_xs ps w last [] c dyn vs fs x in run_xs r w1 last1 c1 dyn vs fs
+    end.
+  Fixpoint xs_ok (fs : list (str * node F)) (ops : list (list pstep * xop F)) (held : option (list (str * node F))) : Prop :=
+    match ops with
+    | [] => True
+    | (ps, XOp o) :: r => obj_ok fs ps o /\ xs_ok fs r held
+    | (ps, XObj rt k sdyn svs sfs dops) :: r =>
+        (ok_fields sfs /\ objs_ok sfs dops /\ slot_matches fs ps rt k sfs) /\ xs_ok fs r (Some sfs)
+    | (ps, XAgain rt k dops) :: r =>
+        match held with Some sfs => objs_ok sfs dops /\ slot_matches fs ps rt k sfs | None => True end /\ xs_ok fs r held
+    end.
+  Definition kept_ok (held : option (list (str * node F))) (last : kept F) : Prop :=
+    match last with
+    | Some (src, (_, _, sfs)) => held = Some sfs /\ ok_fields sfs /\ wf_cfg sfs src
+    | None => True
+    end.
+  Lemma kept_ok_refused : forall held o src sdyn svs sfs, held = Some sfs -> ok_fields sfs -> wf_cfg sfs src ->
+    kept_ok held (keep_if_refused F o src (sdyn, svs, sfs)).
+  Proof. intros. destruct o; cbn [keep_if_refused kept_ok]; auto. Qed.
+
+  Theorem run_xs_wf : forall ops w last c dyn vs fs held,
+    ok_fields fs -> wf_cfg fs c -> kept_ok held last -> xs_ok fs ops held -> wf_cfg fs (run_xs ops w last c dyn vs fs).
+  Proof.
+    induction ops as [|[ps x] ops IH]; intros w last c dyn vs fs held Hok Hw Hk Hx; cbn [run_xs]; [exact Hw|].
+    destruct x as [o|rt k sdyn svs sfs dops|rt k dops]; cbn [xs_ok] in Hx; cbn [Config.at_path_xs].
+    - destruct Hx as [Ho Hx]. destruct (at_path ps w [] c dyn vs fs o) as [[w1 c1] o1] eqn:E.
+      eapply IH; [exact Hok | eapply step_wf; eauto | exact Hk | exact Hx].
+    - destruct Hx as [[Hsk [Hd Hs]] Hx]. destruct (detached w sdyn svs sfs dops) as [w1 src] eqn:Ed.
+      pose proof (detached_wf w sdyn svs sfs dops Hsk Hd) as Hsrc. rewrite Ed in Hsrc. cbn [snd] in Hsrc.
+      destruct (at_path ps w1 [] c dyn vs fs (obj_cop rt k src)) as [[w2 c1] o1] eqn:E.
+      eapply IH; [exact Hok | | apply kept_ok_refused; [reflexivity | exact Hsk | exact Hsrc] | exact Hx].
+      eapply step_wf; [exact Hok | exact Hw | | exact E]. eapply offered_obj_ok; eauto.
+    - destruct Hx as [Ha Hx]. destruct last as [[src0 [[sdyn svs] sfs]]|].
+      + cbn [kept_ok] in Hk. destruct Hk as [Hh [Hsk Hsrc0]]. subst held. destruct Ha as [Hd Hs].
+        destruct (run_detached dops w src0 sdyn svs sfs) as [w1 src] eqn:Ed.
+        pose proof (run_detached_wf dops w src0 sdyn svs sfs Hsk Hsrc0 Hd) as Hsrc. rewrite Ed in Hsrc. cbn [snd] in Hsrc.
+        destruct (at_path ps w1 [] c dyn vs fs (obj_cop rt k src)) as [[w2 c1] o1] eqn:E.
+        eapply IH; [exact Hok | | apply kept_ok_refused; [reflexivity | exact Hsk | exact Hsrc] | exact Hx].
+        eapply step_wf; [exact Hok | exact Hw | | exact E]. eapply offered_obj_ok; eauto.
+      + eapply IH; [exact Hok | exact Hw | exact I | exact Hx].
+  Qed.
+  (* C01 over histories with side-built, kept and re-offered configuration objects *)
+  Theorem reachable_xs_wf : forall ops w dyn vs fs, ok_fields fs -> xs_ok fs ops None ->
+    wf_cfg fs (run_xs ops (fst (build_cfg w fs)) None (snd (build_cfg w fs)) dyn vs fs).
+  Proof. intros. eapply run_xs_wf; [assumption | apply build_cfg_wf; assumption | exact I | eassumption]. Qed.
 
   (* reading a leaf right after an accepted assignment yields the field's normalised form of the assigned value *)
   Theorem set_get : forall x w pre c fs dyn k rl w' c' f,
